@@ -621,22 +621,22 @@ fn parse_constant_value(
     tokens: &mut PeekableLexer,
 ) -> DiagnosticResult<WithEmbeddedLocation<GraphQLConstantValue>> {
     from_control_flow(|| {
-        to_control_flow(|| {
-            tokens
-                .parse_source_of_kind(TokenKind::IntegerLiteral)
-                .and_then(|int_literal_string| {
-                    int_literal_string.and_then(|raw_int_value| {
-                        match raw_int_value.parse::<i64>() {
-                            Ok(value) => GraphQLConstantValue::Int(value).wrap_ok(),
-                            Err(_) => Diagnostic::new(
-                                format!("Invalid integer value. Received {raw_int_value}"),
-                                int_literal_string.location.to::<Location>().wrap_some(),
-                            )
-                            .wrap_err(),
-                        }
-                    })
-                })
-        })?;
+        if let Ok(int_literal_string) = tokens.parse_source_of_kind(TokenKind::IntegerLiteral) {
+            // The token has been consumed, so a literal that does not fit is an error,
+            // not a reason to try the other kinds of values.
+            return match int_literal_string.item.parse::<i64>() {
+                Ok(value) => {
+                    ControlFlow::Break(int_literal_string.map(|_| GraphQLConstantValue::Int(value)))
+                }
+                Err(_) => ControlFlow::Continue(Diagnostic::new(
+                    format!(
+                        "Invalid integer value. Received {}",
+                        int_literal_string.item
+                    ),
+                    int_literal_string.location.to::<Location>().wrap_some(),
+                )),
+            };
+        }
 
         to_control_flow(|| {
             tokens
